@@ -24,7 +24,7 @@ EXPLANATION = ("body VC of reverse_complement: a CircularRecord is returned whos
 
 
 def obligations(ctx):
-    return ctx.verify(FUNCTIONS) + lemmas(ctx)
+    return ctx.verify(FUNCTIONS) + ctx.part(lemmas)
 
 
 def rc(x):
